@@ -1572,21 +1572,15 @@ def x_spaces(ctx):
               x_space("x2-same-terminal-fresh",
                       [[[0, "o"], [0, "r"]], "w"], [I, I], None, 1, None, 0,
                       s, sched=[A, None]),
-              x_space("x2-same-terminal-2ex-preempt3",
-                      [[[0, "rw"], [0, "o"]], "wr"], [I, I], None, 1, 3, 0,
+              x_space("x2-same-terminal-2ex-preempt2",
+                      [[[0, "rw"], [0, "o"]], "wr"], [I, I], 6, 0, 2, 0,
                       s, sched=[A, None]),
-              x_space("x2-same-terminal-both-preempt3",
+              x_space("x2-same-terminal-both-preempt1",
                       [[[0, "r"], [0, "o"]], [[0, "w"], [0, "r"]]], [U, I],
-                      7, 0, 3, 0, s, sched=[A, A]),
-              x_space("x2-same-terminal-3tasks-preempt2",
-                      [[[0, "w"], [0, "r"], [0, "o"]], "r"], [I, U], 5, 0,
-                      2, 0, s, sched=[A, None]),
-              x_space("x3-same-terminal-preempt2",
+                      7, 0, 1, 0, s, sched=[A, A]),
+              x_space("x3-same-terminal-preempt1",
                       [[[0, "r"], [0, "w"]], "o", "r"], [I, U, I], 7, 0,
-                      2, 0, s, sched=[A, None, None]),
-              x_space("x2-two-terminals-all-orders-preempt3",
-                      [[[1, "r"], [0, "w"]], [[1, "o"]]], [I, I], 6, 0, 3,
-                      0, s, sched=[A, None]),
+                      1, 0, s, sched=[A, None, None]),
               x_space("x2-same-terminal-refused",
                       [[[0, "R"], [0, "w"]], "Or"], [I, I], 6, 0, None, 0,
                       s, sched=[A, None]),
@@ -1604,12 +1598,12 @@ def x_spaces(ctx):
               x_space("x2-rejoin-2ex-preempt3",
                       [dict(sessions=["rw", "o"]), "wr"], [U, I], None, 1,
                       3, 0, s),
-              x_space("x3-rejoin-preempt2",
+              x_space("x3-rejoin-preempt1",
                       [dict(sessions=["r", "w"]), "o", "w"], [I, I, U], None,
-                      0, 2, 0, s),
-              x_space("x2-rejoin-same-terminal-preempt3",
+                      0, 1, 0, s),
+              x_space("x2-rejoin-same-terminal-preempt2",
                       [dict(sessions=[[[0, "r"], [0, "w"]], "o"]), "r"],
-                      [I, I], None, 0, 3, 0, s, sched=[A, None])]
+                      [I, I], 6, 0, 2, 0, s, sched=[A, None])]
     only = os.environ.get("C15_SPACES")       # development aid
     if only:
         sp = [x for x in sp if x.name in only.split(",")]
